@@ -260,7 +260,7 @@ func c11(c *Ctx) {
 					// receiver variable defined from GetSession(param)
 					if d := uniqueDef(info, getAuth.Node(), se.X); d != nil {
 						if call, isCall := ast.Unparen(d).(*ast.CallExpr); isCall {
-							if fn := astx.Callee(info, call); fn != nil && (fn.Name() == "GetSession" || fn.Name() == "getSessionLocked") && len(call.Args) == 1 {
+							if fn := astx.Callee(info, call); fn != nil && (fname(fn) == "GetSession" || fname(fn) == "getSessionLocked") && len(call.Args) == 1 {
 								if id, isID := ast.Unparen(call.Args[0]).(*ast.Ident); isID {
 									if _, isParam := info.Defs[id]; !isParam {
 										for _, fld := range getAuth.FuncType().Params.List {
@@ -423,7 +423,7 @@ func c11(c *Ctx) {
 		n := 0
 		for _, call := range astx.Calls(hgm.Body(), false) {
 			fn := astx.Callee(info, call)
-			if fn == nil || fn.Name() != "Encode" || len(call.Args) != 1 {
+			if fn == nil || fname(fn) != "Encode" || len(call.Args) != 1 {
 				continue
 			}
 			n++
@@ -474,7 +474,7 @@ func c11(c *Ctx) {
 				if id, isID := ast.Unparen(f.Expr).(*ast.Ident); isID && f.Val {
 					for _, d := range defsOf(info, priv.Node(), astx.Obj(info, id)) {
 						if cc, isCall := ast.Unparen(d).(*ast.CallExpr); isCall {
-							if fn := astx.Callee(info, cc); fn != nil && fn.Name() == "BasicAuth" {
+							if fn := astx.Callee(info, cc); fn != nil && fname(fn) == "BasicAuth" {
 								okFlag = true
 							}
 						}
@@ -490,7 +490,7 @@ func c11(c *Ctx) {
 					ast.Inspect(priv.Body(), func(n ast.Node) bool {
 						if as, ok := n.(*ast.AssignStmt); ok && len(as.Rhs) == 1 && len(as.Lhs) == 3 {
 							if cc, ok := ast.Unparen(as.Rhs[0]).(*ast.CallExpr); ok {
-								if fn := astx.Callee(info, cc); fn != nil && fn.Name() == "BasicAuth" {
+								if fn := astx.Callee(info, cc); fn != nil && fname(fn) == "BasicAuth" {
 									if l, ok := as.Lhs[idx].(*ast.Ident); ok && astx.Obj(info, l) == o {
 										res = true
 									}
@@ -556,7 +556,7 @@ func c11(c *Ctx) {
 					}
 				}
 				// registrations
-				if fn.Pkg() != nil && fn.Pkg().Path() == "net/http" && (fn.Name() == "HandleFunc" || fn.Name() == "Handle") && !inTool {
+				if fn.Pkg() != nil && fn.Pkg().Path() == "net/http" && (fname(fn) == "HandleFunc" || fname(fn) == "Handle") && !inTool {
 					okReg := false
 					if len(x.Args) == 2 {
 						if se, ok := ast.Unparen(x.Args[1]).(*ast.SelectorExpr); ok {
@@ -569,7 +569,7 @@ func c11(c *Ctx) {
 					}
 					r.Check(okReg, "C11.H5", fi.Name(), "registers "+astx.Str(x.Args[0]), c.P.Pos(x.Pos()), "one of the two gated dispatchers", "an HTTP route is registered that does not go through DispatchPublic/DispatchPrivate")
 				}
-				if fn.Pkg() != nil && fn.Pkg().Path() == "github.com/robustirc/rafthttp" && fn.Name() == "ServeHTTP" {
+				if fn.Pkg() != nil && fn.Pkg().Path() == "github.com/robustirc/rafthttp" && fname(fn) == "ServeHTTP" {
 					r.Check(fi == privNA, "C11.H5", fi.Name(), "serves the raft transport", c.P.Pos(x.Pos()), "inside the password gate", "the raft transport is served outside the admin gate")
 				}
 			case *ast.SelectorExpr:
